@@ -333,3 +333,27 @@ def read_with_library(b, reader='memmap'):
             os.remove(path)
         except OSError:
             pass
+
+
+def to_little_endian(b):
+    """a big-endian uamiv file as a little-endian machine would have written it: every integer/float word and every
+    record marker byte-swapped, the characters (one per word, 'A   ') left in place"""
+    recs = walk_records(b)
+
+    def sw(x):
+        return b''.join(x[i:i + 4][::-1] for i in range(0, len(x), 4))
+    out = b''
+    for i, r in enumerate(recs):
+        if i == 0:
+            body = r[:280] + sw(r[280:])
+        elif i in (1, 2):
+            body = sw(r)
+        elif i == 3:
+            body = r
+        elif len(r) == 16:
+            body = sw(r)
+        else:
+            body = sw(r[:4]) + r[4:44] + sw(r[44:])
+        m = struct.pack('<i', len(r))
+        out += m + body + m
+    return out
